@@ -35,6 +35,21 @@ func c09Total(c *engine.Case, entry string, input []byte, fn func(in []byte) err
 			ok = false
 		}
 	}()
+	// second layout: capacity exactly the length (a decoder that slices past len(in) is
+	// only caught when there is nothing behind it)
+	exact := make([]byte, len(input))
+	copy(exact, input)
+	exact = exact[:len(input):len(input)]
+	func() {
+		defer func() {
+			if e := recover(); e != nil {
+				site := engine.PanicSite(string(debug.Stack()))
+				c.Fail("panic/"+entry+"/"+site, fmt.Sprintf("%s panics on input %x held in a slice without spare capacity: %v", entry, input, e), nil)
+				ok = false
+			}
+		}()
+		fn(exact)
+	}()
 	err = fn(in)
 	if !bytes.Equal(in, input) {
 		c.Fail("input-modified/"+entry, fmt.Sprintf("%s wrote to its input: %x -> %x", entry, input, in), nil)
@@ -66,7 +81,7 @@ func bytesOfIndex(i uint64, n int) []byte {
 }
 
 func runC09(r *engine.Run) {
-	r.Rule = "E1 enumeration per decoder entry point, oracle: returns a value or an error, no panic (recovered and reported per input), no hang (watchdog), input buffer and its spare capacity byte-identical afterwards, stream decoders make progress (#commands <= len(input)). Frame decode: control-byte product (MHDR x length 0..40 x FCtrl x byte1 x FPort byte x filler) plus lengths up to 512 with four fillers, followed on accepted frames by FOpts/FRMPayload command decode and decrypt-then-decode with two keys; base64: all strings of length <= 4 over a 10-symbol alphabet; MAC command stream decoders: all byte strings of length <= 3 x direction x 2 registry states, lengths 4..32 with all 65536 leading byte pairs; decrypt-then-decode with plaintext ranging over all 2-byte strings; join-accept decrypt over ciphertext lengths 0..40 and plaintext control bytes; CFList lengths 0..20 x 256 types; MACCommand CID x direction x length 0..8; the four application-layer command decoders: all strings <= 2 bytes, 3-byte strings (quick: 18 leading CIDs; thorough: all), (CID, second byte) all 65536 x lengths 0..40 x 2 fillers; backend text/JSON unmarshalers: all strings of length <= 5 over a 14-symbol alphabet and every payload struct with each field (and each pair, thorough) set to each of 10 JSON atoms. Non-trivial: the decoder returned a value (not an error)."
+	r.Rule = "E1 enumeration per decoder entry point, oracle: returns a value or an error, no panic (recovered and reported per input), no hang (watchdog), input buffer and its spare capacity byte-identical afterwards, stream decoders make progress (#commands <= len(input)). Frame decode: control-byte product (MHDR x length 0..40 x FCtrl x byte1 x FPort byte x filler) plus lengths up to 512 with four fillers and 17 lengths around 255x16 bytes and 2^16 (the payload cipher's 8-bit block counter, 16-bit length fields), followed on accepted frames by FOpts/FRMPayload command decode and decrypt-then-decode with two keys; base64: all strings of length <= 4 over a 10-symbol alphabet; MAC command stream decoders: all byte strings of length <= 3 x direction x 2 registry states, lengths 4..32 with all 65536 leading byte pairs; decrypt-then-decode with plaintext ranging over all 2-byte strings; join-accept decrypt over ciphertext lengths 0..40 and plaintext control bytes; CFList lengths 0..20 x 256 types; MACCommand CID x direction x length 0..8; the four application-layer command decoders: all strings <= 2 bytes, 3-byte strings (quick: 18 leading CIDs; thorough: all), (CID, second byte) all 65536 x lengths 0..40 x 2 fillers; backend text/JSON unmarshalers: all strings of length <= 5 over a 14-symbol alphabet and every payload struct with each field (and each pair, thorough) set to each of 10 JSON atoms. Non-trivial: the decoder returned a value (not an error)."
 	frameHistory(r, 2)
 	r.Rule += " E3 (schedules): the FOpts and FRMPayload MAC-command decoders against two concurrent registrations of proprietary commands, every interleaving (preemption-bounded and unbounded with state-key pruning), sync.RWMutex modelled with pending writers excluding new readers: every thread returns, no deadlock."
 	mergeSchedSummary(r, "C09")
@@ -151,6 +166,28 @@ func runC09(r *engine.Run) {
 			b[0] = mt << 5
 		}
 		frameDecode(c, b)
+	})
+
+	// far beyond any LoRaWAN frame: lengths around the 8-bit block counter of the payload
+	// cipher (255 x 16 bytes), and 16-bit length boundaries
+	longLens := []int{1024, 4000, 4063, 4064, 4065, 4079, 4080, 4081, 4095, 4096, 4097, 4112, 8192, 65535, 65536, 65537, 70000}
+	r.PartDims("frame/very-long", []string{fmt.Sprintf("length:%d values around 255x16 and 2^16", len(longLens)), "mhdr:8", "filler:2"}, uint64(len(longLens)*8*2), func(c *engine.Case) {
+		n := longLens[c.Index%uint64(len(longLens))]
+		mt := byte((c.Index / uint64(len(longLens))) % 8)
+		fill := []byte{0x00, 0x02}[c.Index/uint64(len(longLens)*8)]
+		b := bytes.Repeat([]byte{fill}, n)
+		b[0] = mt << 5
+		frameDecode(c, b)
+		// the exported cipher functions on buffers of that size
+		if mt == 2 {
+			data := bytes.Repeat([]byte{fill}, n)
+			if pn, site, v := engine.Try(func() { lorawan.EncryptFRMPayload(lorawan.AES128Key{1}, true, lorawan.DevAddr{1, 2, 3, 4}, 1, data) }); pn {
+				c.Fail("panic/EncryptFRMPayload/"+site, fmt.Sprintf("EncryptFRMPayload panics on %d bytes: %v", n, v), nil)
+			}
+			if pn, site, v := engine.Try(func() { lorawan.EncryptFOpts(lorawan.AES128Key{1}, false, true, lorawan.DevAddr{1, 2, 3, 4}, 1, data) }); pn {
+				c.Fail("panic/EncryptFOpts/"+site, fmt.Sprintf("EncryptFOpts panics on %d bytes: %v", n, v), nil)
+			}
+		}
 	})
 
 	// ---- 2. base64 text
